@@ -281,9 +281,12 @@ func (a *Array) Member(name string) Object {
 
 // Splice an array
 func (a *Array) Splice(n Number) Object {
+	// the removed tail gets its own storage: a later push on the receiver must not overwrite it
+	tail := a.items[int(n):]
 	right := &Array{
-		items: a.items[int(n):],
+		items: make([]Object, len(tail)),
 	}
+	copy(right.items, tail)
 	a.items = a.items[:int(n)]
 	return right
 }
